@@ -194,6 +194,7 @@ def main():
 
     # collect
     violations = []
+    messages = {}
     known = []
     notes = []
     merged = {}
@@ -208,11 +209,13 @@ def main():
                 data = json.load(open(sj))
             except ValueError:
                 data = None
-        for line in out.splitlines():
+        lines = out.splitlines()
+        for li, line in enumerate(lines):
             if "VIOLATION-FILE " in line:
                 p = line.split("VIOLATION-FILE ", 1)[1].strip()
                 if p not in violations:
                     violations.append(p)
+                    messages[p] = "\n".join(x.strip() for x in lines[li + 1:li + 3])
             if line.startswith("KNOWN-FINDING:") and line not in known:
                 known.append(line)
         race_logs = glob.glob(os.path.join(work, "race.%d*" % i))
@@ -310,10 +313,13 @@ def main():
     if violations:
         for v in violations[:1]:
             print("VIOLATION property=%s replay=%s" % (cid, v))
-        try:
-            print(json.load(open(violations[0])).get("observed", "")[:3000])
-        except Exception:
-            pass
+        if messages.get(violations[0]):
+            print(messages[violations[0]][:3000])
+        else:
+            try:
+                print(json.load(open(violations[0])).get("observed", "")[:3000])
+            except Exception:
+                pass
         finish(1, cid)
     if timed_out:
         log("INCONCLUSIVE: timeout after %ds" % cfg["timeout"][tier])
